@@ -456,7 +456,7 @@ def _concatenate_axes(axes):
     values = np.concatenate([ax.values for ax in axes])
     return Axis(values, axes[0].name)
 
-def concatenate(arrays, axis=0, _no_check=False, align=False, **kwargs):
+def concatenate(arrays, axis=0, align=False, _no_check=False, **kwargs):
     """ concatenate several DimArrays
 
     Parameters
